@@ -15,6 +15,7 @@ Bases == {"standalone", "references-sibling", "reexported-by-init", "unanalysed-
           "private-mixin"}      \* M has a class derived from a private class of another module whose public method mentions a class of a third module
 Perturbs == {"add-plain", "add-same-names", "rename-unrelated", "change-unrelated", "remove-unrelated", "permute-own",
              "reexport-unrelated-same-name",
+             "add-module-named-like-uninstalled-library",   \* M uses a class of a library that is not installed where the analysis runs; an unrelated module pkg/x/<library>.py defines a class of that name
              "add-class-named-in-docstring",       \* an unrelated module defines a class called like a type that only a docstring of M names (M does not import it)
              "reexport-unrelated-prefix-module",   \* the root __init__ re-exports an unrelated module whose name is a string prefix of M's (mmo / mmod)
              "add-sibling-subclass",             \* unrelated modules (enumerated before and after M) with another subclass of the same private class, same member names
@@ -35,6 +36,7 @@ Apply(p, k) ==
     [] k = "add-sibling-subclass" -> [p EXCEPT !.U = 4]
     [] k = "reexport-unrelated-prefix-module" -> [p EXCEPT !.U2 = 5, !.RI = 2]
     [] k = "add-class-named-in-docstring" -> [p EXCEPT !.U = 5]
+    [] k = "add-module-named-like-uninstalled-library" -> [p EXCEPT !.U = 6]
     [] k = "reexport-unrelated-same-name" -> [p EXCEPT !.U = 3, !.RI = 1]   \* RI: the root __init__ re-exports a class of U (not of M, not of N)
 StartOf(b, k) == IF k \in {"rename-unrelated", "change-unrelated", "remove-unrelated"} THEN WithU(BasePkg(b)) ELSE BasePkg(b)
 Deps(p) == <<p.M, p.N, p.I>>                       \* what M's stub may depend on
